@@ -85,6 +85,7 @@ type Exec struct {
 	HavocCallsC *Contract   // synthetic contract of `havoccalls` (nil when the unit does not use it)
 	Kept        []keptField // fields kept across abstracted calls
 	HavocSites  []havocSite
+	strKeys     []Val // strings used as map keys in this unit (content identity axioms)
 	UnitTimeout int // `timeout N` of the unit's contract
 	AbstractNames map[string]bool // callees abstracted by name in a havoccalls unit (clause abstractcall)
 }
@@ -482,6 +483,16 @@ func (fx *fnExec) checkInvariant(lp *Loop, st *State, which string) {
 
 // havocLoop replaces everything the loop may modify by fresh values.
 func (fx *fnExec) havocLoop(lp *Loop, st *State, spec *LoopSpec) {
+	// ghost counters of the unit may be advanced by calls inside the loop: at the head of an
+	// arbitrary iteration their value is unknown (loop invariants constrain it; atloop(ghost(g))
+	// is the value at loop entry)
+	if fx.c != nil {
+		for _, g := range fx.c.Ghost {
+			if fx.loopMayCall(lp, g.Callee) {
+				st.Ghost[g.Name] = Fresh(fmt.Sprintf("L%d_ghost_%s", lp.Ordinal, g.Name), BV64)
+			}
+		}
+	}
 	allocs := map[*ssa.Alloc]bool{}
 	keys := map[string]bool{}
 	var scan func(fn *ssa.Function, blocks map[*ssa.BasicBlock]bool, depth int)
